@@ -18,6 +18,7 @@ import (
 	"github.com/conduitio/conduit/pkg/connector"
 	"github.com/conduitio/conduit/pkg/pipeline"
 	"github.com/conduitio/conduit/pkg/processor"
+	"github.com/conduitio/conduit/pkg/provisioning/config"
 
 	"verifharness/drivers"
 	"verifharness/engine"
@@ -56,26 +57,27 @@ type Step struct {
 }
 
 type Scenario struct {
-	ID        string            `json:"id"`
-	Engine    string            `json:"engine"`
-	Sources   []fakes.SourceCfg `json:"sources"`
-	Dests     []fakes.DestCfg   `json:"dests"`
-	Procs     []fakes.ProcCfg   `json:"procs"`
-	DLQ       DLQCfg            `json:"dlq"`
-	Persister string            `json:"persister"` // "eager" (default) | "lazy"
-	Bundle    int               `json:"bundle,omitempty"`
-	Faults    []StoreFault      `json:"store_faults,omitempty"`
-	Steps     []Step            `json:"steps"`
-	Final     string            `json:"final,omitempty"`    // "stopandwait" (default) | "stopwait" | "none"
-	Restarts  int               `json:"restarts,omitempty"` // C03: restart from up to this many snapshots
-	Procs1    int               `json:"gomaxprocs,omitempty"`
-	Features  []string          `json:"features,omitempty"`
-	QuietUs   int               `json:"quiet_us,omitempty"`
-	MaxRetry  int               `json:"max_retries,omitempty"`
-	MinMs     int               `json:"min_delay_ms,omitempty"` // recovery back-off bounds
-	MaxMs     int               `json:"max_delay_ms,omitempty"`
-	WindowMs  int               `json:"retries_window_ms,omitempty"`
-	Restart   bool              `json:"final_restart,omitempty"` // after the end: Start again, short flow, StopAndWait
+	ID          string            `json:"id"`
+	Engine      string            `json:"engine"`
+	Sources     []fakes.SourceCfg `json:"sources"`
+	Dests       []fakes.DestCfg   `json:"dests"`
+	Procs       []fakes.ProcCfg   `json:"procs"`
+	DLQ         DLQCfg            `json:"dlq"`
+	Persister   string            `json:"persister"` // "eager" (default) | "lazy"
+	Bundle      int               `json:"bundle,omitempty"`
+	Faults      []StoreFault      `json:"store_faults,omitempty"`
+	Steps       []Step            `json:"steps"`
+	Final       string            `json:"final,omitempty"`    // "stopandwait" (default) | "stopwait" | "none"
+	Restarts    int               `json:"restarts,omitempty"` // C03: restart from up to this many snapshots
+	Procs1      int               `json:"gomaxprocs,omitempty"`
+	Features    []string          `json:"features,omitempty"`
+	QuietUs     int               `json:"quiet_us,omitempty"`
+	MaxRetry    int               `json:"max_retries,omitempty"`
+	MinMs       int               `json:"min_delay_ms,omitempty"` // recovery back-off bounds
+	MaxMs       int               `json:"max_delay_ms,omitempty"`
+	WindowMs    int               `json:"retries_window_ms,omitempty"`
+	Restart     bool              `json:"final_restart,omitempty"` // after the end: Start again, short flow, StopAndWait
+	Provisioned bool              `json:"provisioned,omitempty"`   // C16: the pipeline is created by importing a config
 }
 
 type call struct {
@@ -98,7 +100,13 @@ type runner struct {
 	started   bool
 	restarted bool
 	reconfs   int
-	quiet     time.Duration
+
+	// C16
+	current     config.Pipeline
+	appliedBase *config.Pipeline
+	plans       []planned
+	applies     int
+	quiet       time.Duration
 
 	faultMu sync.Mutex
 	opCount map[string]int
@@ -183,7 +191,11 @@ func (r *runner) run() {
 	}
 	r.world.SetDLQ(sc.DLQ.Cfg)
 	r.eng = r.newEngine(r.db)
-	if err := r.setup(); err != nil {
+	setup := r.setup
+	if sc.Provisioned {
+		setup = r.setupProvisioned
+	}
+	if err := setup(); err != nil {
 		r.log.Add("HarnessError", "what", "setup: "+err.Error())
 		return
 	}
@@ -543,6 +555,10 @@ func (r *runner) step(i int, st Step) {
 			// by default wait (bounded) for the outcome so that later steps are "after the switch"
 			waitCall(c, 3*time.Second)
 		}
+	case "Plan":
+		r.stepPlan(i, st)
+	case "Apply":
+		r.stepApply(i, st)
 	case "Wait":
 		r.async("WaitPipeline", func() error { return e.LC.WaitPipeline(PipelineID) })
 	case "Flush":
